@@ -18,7 +18,12 @@ MANIFEST = dict(
          'TESTED, NOT PROVED (the statement for whole specs and arbitrary text): crash fuzzing of the real specs_to_ir '
          '- generated specs after 1-3 token-level edits, every string over a 14-token alphabet up to a length after a '
          'namespace header plus random longer ones, the code blocks of docs/lang_ref.rst, the seeds of corpus/C03, every '
-         'rule-violation injection of C01 - with the oracle "returns, or raises InvalidSpec with a non-empty str '
+         'rule-violation injection of C01, a grid of literals of every kind and of unusual size (integers of 22 to 4400 '
+         'digits, floats with huge exponents, strings of up to 100,000 characters) at every place a literal is '
+         'converted or checked (field defaults, example values, route attributes, annotation arguments, annotation-type '
+         'parameter defaults, type arguments) for every primitive type plain / bounded / nullable / behind an alias '
+         '(fe.literals), and a grid of argument shapes (0-3 positional x 0-2 keyword arguments, mixed, duplicated, '
+         'unknown, bare) for every built-in annotation type and four custom ones (fe.annargs) - with the oracle "returns, or raises InvalidSpec with a non-empty str '
          'message, int|None line and a path among the inputs"; a sample through stone.cli.main checks exit status 1 and '
          '`path:line: error: message`.',
     note='Trusted: Lean kernel, translator, generators. ply (lex / yacc) is not modelled; the parser and the remaining '
@@ -41,6 +46,8 @@ def run(ck):
                        n_random_short=ck.scale(1500, 50000))
     fe_fuzz.suite_cli(ck, ck.scale(40, 400))
     fe_rules.suite_params(ck, report='C03')
+    fe_rules.suite_literals(ck, report='C03')
+    fe_rules.suite_annargs(ck, report='C03')
     fe_rules.suite_names(ck, report='C03', n=ck.scale(1200, 10000))
     fe_rules.suite_violations(ck, n_models=ck.scale(10, 150), per_rule=ck.scale(2, 6), report='C03')
     ck.assumptions.extend([
